@@ -25,68 +25,7 @@ func runC13(c *Ctx) {
 	R := c.R
 	_, s := c.Std()
 
-	R.Rule("R-status-shape", "E4 value flow", "createStatusCollector: channel capacity = multiplicity of the recipient in Conn.recipients; ordered view = map entry of each recipient in list order", 3)
-	if f := c.A.Func("(*Conn).createStatusCollector"); f != nil {
-		var countMap ssa.Value
-		okCount, okChan, okView := false, false, false
-		allInstrs(f, func(in ssa.Instruction) {
-			switch x := in.(type) {
-			case *ssa.MapUpdate:
-				if mm, ok := x.Map.(*ssa.MakeMap); ok && strings.HasSuffix(typeShort(mm.Type()), "map[string]int") {
-					// counts[rcpt] = counts[rcpt] + 1 with rcpt an element of Conn.recipients
-					kd := describe(x.Key)
-					vd := describe(x.Value)
-					if strings.HasPrefix(kd, "Conn.recipients[") && vd == "(makemap["+kd+"] + 1)" {
-						okCount = true
-						countMap = mm
-					}
-				}
-			}
-		})
-		allInstrs(f, func(in ssa.Instruction) {
-			x, ok := in.(*ssa.MapUpdate)
-			if !ok || describe(x.Map) != "statusCollector.statusMap" {
-				return
-			}
-			mc, ok := x.Value.(*ssa.MakeChan)
-			if !ok {
-				return
-			}
-			// key and size must be the key/value of one iteration over the count map
-			ke, ok1 := x.Key.(*ssa.Extract)
-			se, ok2 := stripConv(mc.Size).(*ssa.Extract)
-			if ok1 && ok2 && ke.Tuple == se.Tuple && ke.Index == 1 && se.Index == 2 {
-				if nx, ok := ke.Tuple.(*ssa.Next); ok {
-					if rg, ok := nx.Iter.(*ssa.Range); ok && rg.X == countMap && countMap != nil {
-						okChan = true
-					}
-				}
-			}
-		})
-		for _, st := range s.Find(f, "st:statusCollector.status") {
-			_, _, v := storedField(st)
-			call, ok := v.(*ssa.Call)
-			if !ok {
-				continue
-			}
-			if b, isB := call.Call.Value.(*ssa.Builtin); !isB || b.Name() != "append" {
-				continue
-			}
-			elem := describeVarargs(call.Call.Args[1])
-			if describe(call.Call.Args[0]) == "statusCollector.status" && regexp.MustCompile(`^statusCollector\.statusMap\[Conn\.recipients\[.*\]\]$`).MatchString(elem) {
-				// must be inside a loop ranging over Conn.recipients
-				for _, li := range findLoops(f) {
-					if li.overRc && li.blocks[st.Block()] {
-						okView = true
-					}
-				}
-			}
-		}
-		R.Ob("(*Conn).createStatusCollector/counts multiplicity of each recipient", c.P.Pos(f.Pos()), okCount, "no counts[rcpt]++ over Conn.recipients found")
-		R.Ob("(*Conn).createStatusCollector/channel capacity = multiplicity", c.P.Pos(f.Pos()), okChan, "the per-recipient channel is not created with the recipient's count as capacity: duplicates can block or lose statuses")
-		R.Ob("(*Conn).createStatusCollector/ordered view follows Conn.recipients", c.P.Pos(f.Pos()), okView, "status[] is not built by appending statusMap[rcpt] while ranging Conn.recipients: replies would be mis-attributed")
-	}
-
+	ruleStatusShape(c)
 	R.Rule("R-status-emit", "E4 value flow", "each emission loop ranges over the recipients, takes the status from entry i of this transaction's collector via dataErrorToStatus and names recipient i", 2)
 	nEmit := 0
 	for _, fn := range []string{"(*Conn).handleDataLMTP", "(*Conn).handleBdat"} {
@@ -566,4 +505,75 @@ func ruleAcceptedRecorded(c *Ctx) {
 		}
 		c.obUnreach("recipient list grows", st, aPipeOpen)
 	}
+}
+
+// ruleStatusShape (C13, C20): the collector's channels hold exactly one slot per occurrence of their recipient. C20
+// needs it for "never deadlocks": a channel with fewer slots makes a contract-abiding SetStatus panic or leaves the
+// command loop's k-th receive for a duplicated recipient without a value (it blocks on a channel, not on the socket).
+func ruleStatusShape(c *Ctx) {
+	R := c.R
+	_, s := c.Std()
+	_ = s
+	R.Rule("R-status-shape", "E4 value flow", "createStatusCollector: channel capacity = multiplicity of the recipient in Conn.recipients; ordered view = map entry of each recipient in list order", 3)
+	if f := c.A.Func("(*Conn).createStatusCollector"); f != nil {
+		var countMap ssa.Value
+		okCount, okChan, okView := false, false, false
+		allInstrs(f, func(in ssa.Instruction) {
+			switch x := in.(type) {
+			case *ssa.MapUpdate:
+				if mm, ok := x.Map.(*ssa.MakeMap); ok && strings.HasSuffix(typeShort(mm.Type()), "map[string]int") {
+					// counts[rcpt] = counts[rcpt] + 1 with rcpt an element of Conn.recipients
+					kd := describe(x.Key)
+					vd := describe(x.Value)
+					if strings.HasPrefix(kd, "Conn.recipients[") && vd == "(makemap["+kd+"] + 1)" {
+						okCount = true
+						countMap = mm
+					}
+				}
+			}
+		})
+		allInstrs(f, func(in ssa.Instruction) {
+			x, ok := in.(*ssa.MapUpdate)
+			if !ok || describe(x.Map) != "statusCollector.statusMap" {
+				return
+			}
+			mc, ok := x.Value.(*ssa.MakeChan)
+			if !ok {
+				return
+			}
+			// key and size must be the key/value of one iteration over the count map
+			ke, ok1 := x.Key.(*ssa.Extract)
+			se, ok2 := stripConv(mc.Size).(*ssa.Extract)
+			if ok1 && ok2 && ke.Tuple == se.Tuple && ke.Index == 1 && se.Index == 2 {
+				if nx, ok := ke.Tuple.(*ssa.Next); ok {
+					if rg, ok := nx.Iter.(*ssa.Range); ok && rg.X == countMap && countMap != nil {
+						okChan = true
+					}
+				}
+			}
+		})
+		for _, st := range s.Find(f, "st:statusCollector.status") {
+			_, _, v := storedField(st)
+			call, ok := v.(*ssa.Call)
+			if !ok {
+				continue
+			}
+			if b, isB := call.Call.Value.(*ssa.Builtin); !isB || b.Name() != "append" {
+				continue
+			}
+			elem := describeVarargs(call.Call.Args[1])
+			if describe(call.Call.Args[0]) == "statusCollector.status" && regexp.MustCompile(`^statusCollector\.statusMap\[Conn\.recipients\[.*\]\]$`).MatchString(elem) {
+				// must be inside a loop ranging over Conn.recipients
+				for _, li := range findLoops(f) {
+					if li.overRc && li.blocks[st.Block()] {
+						okView = true
+					}
+				}
+			}
+		}
+		R.Ob("(*Conn).createStatusCollector/counts multiplicity of each recipient", c.P.Pos(f.Pos()), okCount, "no counts[rcpt]++ over Conn.recipients found")
+		R.Ob("(*Conn).createStatusCollector/channel capacity = multiplicity", c.P.Pos(f.Pos()), okChan, "the per-recipient channel is not created with the recipient's count as capacity: duplicates can block or lose statuses")
+		R.Ob("(*Conn).createStatusCollector/ordered view follows Conn.recipients", c.P.Pos(f.Pos()), okView, "status[] is not built by appending statusMap[rcpt] while ranging Conn.recipients: replies would be mis-attributed")
+	}
+
 }
